@@ -16,6 +16,7 @@ import (
 	"github.com/tokenized/spynode/internal/spynode"
 	"github.com/tokenized/spynode/internal/verif/core"
 	"github.com/tokenized/spynode/pkg/client"
+	"github.com/tokenized/spynode/pkg/vrt"
 )
 
 // Transaction universe, transaction events and the per-property oracles of the node-level checks
@@ -194,6 +195,25 @@ func (w *World) applyTxEvent(p []string) (bool, bool) {
 			return true, false
 		}
 		w.send(pc, wire.NewMsgPing(9))
+		w.settle()
+		return true, true
+	case "astop": // the application calls Stop from its own thread (scripted; does not wait)
+		if w.stopRequested {
+			return true, false
+		}
+		w.stopRequested, w.stopAt, w.stopPhase = true, w.S.Now, w.phaseOfNode()
+		node := w.Node
+		vrt.GoEnv("App.Stop", func() {
+			node.Stop(core.Ctx())
+			w.stopReturned, w.stopReturnedAt = true, w.S.Now
+		})
+		w.settle()
+		return true, true
+	case "alocal": // alocal:<tx>: an application thread feeds a tx (HandleTx API) concurrently
+		node, tx := w.Node, w.Txs[p[1]]
+		w.noteArrival(p[1], "local", "tx")
+		t := vrt.GoEnv("App.HandleTx", func() { node.HandleTx(core.Ctx(), tx) })
+		t.Env = false
 		w.settle()
 		return true, true
 	case "local": // local:<tx>: the application feeds a tx (HandleTx API)
